@@ -274,9 +274,6 @@ func init() {
 				enum.Tuples(n, 2, func(t []int) {
 					names := enum.Pick([]string{"a", "b"}, t)
 					f := enum.Build(d, names)
-					if !distinctRoots(f) {
-						return
-					}
 					if c.Expired() {
 						return
 					}
